@@ -10,7 +10,7 @@ import random
 INTS = [0, 1, -1, 2, 3, 5, 10, -7, 4, 6, 100]
 FLOATS = [0.0, 1.0, 0.5, 2.5, -1.5, 3.0, 0.125, 2.0]
 STRS = ["", "a", "b", "ab", "abc", "1", "3", " 7 ", "x3", "true", "FALSE", "A", "0", "1.5", "a<b", "c", "-2", "1_0"]
-STR_KEYS = ["a", "b", "c", "ab", "1", "A"]
+STR_KEYS = ["a", "b", "c", "ab", "1", "A", ""]
 IDENT_KEYS = ["a", "b", "c", "ab"]
 OTHER_KEYS = [0, 1, 2, 1.5, True, False, None, -1, 2.0]
 TYPES = [int, float, str, list, dict, bool]
@@ -25,9 +25,19 @@ INTS_HUGE = [1700000000, 1700000001, -1700000000, 2 ** 31 - 1, -(2 ** 31 - 1), 2
 FLOATS_WIDE = [1000000.5, -0.125, 1024.0, 7.875, -2.0, 10.0, 4.0, 100.0, 16777216.5, 134217000.0, -134217000.125, 3.0, 0.0, 1.0]
 STRS_WIDE = ["True", "TRUE", " true", "false ", "tRuE", "+3", "-0", "007", "1__0", "_1", "1_", " 1 2 ", "\t3", "3\r\n", "0x1F",
              "1e3", "a b", "ABC", "Ab", "aB", "value", "path", "type", "condition", "key", "index", "length", "dtype", "None",
-             "null", "aaaaaaaaaaaa", "\x1f5", " ", "abcd", "ba", "\x0b-7\x0c", "+ 3", "3 ", "33"]
-STR_KEYS_WIDE = ["", "value", "path", "type", "a.b", "ab ", "abc", "0", "None", "true", "B", "aa", "condition", "key", " a"]
+             "null", "aaaaaaaaaaaa", "\x1f5", " ", "abcd", "ba", "\x0b-7\x0c", "+ 3", "3 ", "33", "abcdefghijklmnopqrstuvwxyz_0123456789",
+             # a few non-ASCII characters with behaviour of their own under lower() / casefold() / strip() / int()
+             "fal\u017fe", "TRUE\u2003", "\u00a07", "\u0663", "1\uff13", "\u00c9", "\u00e9t\u00e9", "stra\u00dfe", "\u2003true"]
+LONG = "abcdefghijklmnopqrstuvwxyz_0123456789"      # longer than anything reprlib / textwrap / a column width leaves alone
+STR_KEYS_WIDE = [LONG, LONG, "", "value", "path", "type", "a.b", "ab ", "abc", "0", "None", "true", "B", "aa", "condition", "key", " a"]
 OTHER_KEYS_WIDE = [10, -2, 3, 2.5, 4, 0.5, 100, -1.5, 3.0]
+
+
+# literal mapping arguments whose keys look like a path spec in ways beyond the plain lower-case "path": other letter
+# cases (specification keys are read in any case), white space around, longer words, non-list values
+PATHLIKE_EXTRA = [{"Path": ["a", 0]}, {"PATH.length": ["a"]}, {"b": 1, "Path": ["a"]}, {"Path": 3}, {" path": ["a"]}, {"path ": ["a"]},
+                  {"pAthological": {"Path": [1]}}, [{"PATH": ["a"]}, 3], {"x": {"Path.First": ["a"]}}, {"path": "a"}, {"PATH": None},
+                  {"path\t": ["a"]}, {"Path.length.first": ["a", 0]}]
 
 
 def scalar(rng):
@@ -75,6 +85,21 @@ def value(rng, depth=2, maxlen=4):
         return [value(rng, depth - 1, maxlen) for _ in range(rng.randint(0, maxlen))]
     ks = distinct_keys(rng, rng.randint(0, maxlen))
     return {k: value(rng, depth - 1, maxlen) for k in ks}
+
+
+class ListSub(list):
+    """a list subclass (as YAML round-trip loaders and many applications hand out)"""
+
+
+def subclassify(x):
+    """the same document with every mapping an OrderedDict and every list a list subclass: for the library these ARE
+    mappings and lists (isinstance); only type(x) differs - so not to be combined with dtype conditions / modifiers"""
+    import collections
+    if isinstance(x, dict):
+        return collections.OrderedDict((k, subclassify(v)) for k, v in x.items())
+    if isinstance(x, list):
+        return ListSub(subclassify(v) for v in x)
+    return x
 
 
 def twins(rng):
@@ -130,6 +155,9 @@ def cls_of(datum, pre):
 def key_list(rng, ill=0.1):
     n = rng.randint(0, 3)
     ks = [key(rng, 0.6) for _ in range(n)]
+    if rng.random() < 0.12:
+        # keys that differ from an ordinary key only by white space / case (never to be normalised by anyone)
+        ks.insert(rng.randint(0, len(ks)), rng.choice([" a", "ab ", "a\n", "\tb", "A", " ", "B ", "a b"]))
     if rng.random() < ill:
         ks.append(rng.choice([[1], {"a": 1}]))
     return ks
@@ -219,8 +247,24 @@ def leaf_recipe(rng, kinds=None, well_typed=False, fns=None):
     return {"datum": datum, "pre": pre, "fn": fn, "actuals": actuals, "akw": akw}
 
 
+# CUSTOM callables (`Value(lambda x, value: x < value, value=2)`): the library accepts any callable; these have the
+# meaning of a DSL callable (recorded in __verif_fn__ for the projection), but are anonymous functions - the library
+# sees the name "<lambda>" for all of them
+LAM_FUNCS = {"less_than": lambda x, value: x < value, "greater_than": lambda x, value: x > value,
+             "equal_to": lambda x, value: x == value, "not_equal_to": lambda x, value: x != value,
+             "less_than_or_equal_to": lambda x, value: x <= value, "greater_than_or_equal_to": lambda x, value: x >= value}
+for _n, _f in LAM_FUNCS.items():
+    _f.__verif_fn__ = _n
+
+
+def lam_ok(rec):
+    return rec["fn"] in LAM_FUNCS and len(rec["actuals"]) == 1 and not rec["akw"] and rec["pre"] in ("none", "length")
+
+
 def build_leaf(rec):
     cls = cls_of(rec["datum"], rec["pre"])
+    if rec.get("lam") and lam_ok(rec):
+        return cls(LAM_FUNCS[rec["fn"]], value=rec["actuals"][0])
     return getattr(cls, rec["fn"])(*rec["actuals"], **rec["akw"])
 
 
